@@ -15,7 +15,10 @@ use zkabacus_crypto as za;
 
 pub struct C02;
 
-pub const VARIANTS: [&str; 43] = [
+pub const VARIANTS: [&str; 46] = [
+    "adaptive-negated-state",
+    "adaptive-negated-close",
+    "adaptive-negated-revlock",
     "algebraic-token-forgery",
     "close-foreign-channel-id",
     "state-foreign-channel-id",
@@ -766,6 +769,32 @@ pub fn run_case(o: &mut Outcome, case: &Value) {
                     accepted_false.push((format!("adaptive/{}.scalar_commitment", "customer_balance_proof.digit_proofs[].commitment_proof"), p.rounds, format!("closing signature valid on a close state with a negative customer balance: {}", ok)));
                 }
             }
+            "adaptive-negated-state" | "adaptive-negated-close" | "adaptive-negated-revlock" => {
+                // the honest proof of the TRUE statement with C and T of one sub-proof replaced by
+                // their inverses: every opening equation of that sub-proof holds up to sign only;
+                // if accepted, the merchant signs (or keeps as revocation commitment) the negated
+                // message
+                let dt = pay_draft(m, &h, &rc.token, &PayKnobs::default(), &mut s);
+                let (prefix, raw): (&str, &Raw1) = match variant.as_str() {
+                    "adaptive-negated-state" => ("state_proof.commitment_proof", &dt.st),
+                    "adaptive-negated-close" => ("close_state_proof.commitment_proof", &dt.cl),
+                    _ => ("old_revocation_lock_proof", &dt.revlock),
+                };
+                let mk = |c: Option<&Scalar>| {
+                    let mut ov = PayOverrides::default();
+                    ov.g1.push((format!("{}.commitment", prefix), -raw.c));
+                    ov.g1.push((format!("{}.scalar_commitment", prefix), -raw.t));
+                    assemble_pay(&template, &dt, c, &ov)
+                };
+                let draft = mk(None);
+                let mut build = |c: &Scalar| mk(Some(c));
+                let p = attack_pay(m, amount, &refc::scb(&shown), &ctx, &draft, &mut build, seed, o);
+                if let Some((_u, cs)) = p.accepted {
+                    let neg: Vec<Scalar> = dt.cl.m.iter().map(|x| -*x).collect();
+                    let ev = if variant == "adaptive-negated-close" { format!("closing signature valid on the negated close state: {}", unblinds_to_signature_on(m, &cs, &(-dt.cl.bf), &neg)) } else { String::new() };
+                    accepted_false.push((format!("negated/{}", prefix), p.rounds, ev));
+                }
+            }
             "adaptive-digit-response-customer" | "adaptive-digit-response-merchant" => {
                 // overspend (or over-refund): the new balance of one side is q - k. Its range
                 // constraint is built for 0, every digit proof is valid except ONE, whose response is
@@ -902,7 +931,7 @@ impl Prop for C02 {
         v
     }
     fn rule(&self) -> String {
-        "one case = one Byzantine customer session against the real merchant: raw establishment (so the actor knows every scalar), 0-2 honest raw payments to vary the history, one more honest raw payment as accept-the-truth control (closing signature must be on old-balance -/+ amount, a foreign revocation pair must be refused and the right one must complete it), then one variant of the false pay statement: wrong nonce, a token for another nonce derived algebraically from the pay token and the closing signature of the same state (valid iff the merchant re-used its signing exponent), another channel id in only one of the two new messages, wrong amount on either balance, negative / above-range balance, foreign channel id, close tag replaced, old-lock commitment to another lock (linked and unlinked), new lock mismatch, token of another key / tampered / on a different state, digit signature for another digit, digits permuted, all-maximal digits, a digit signature fabricated from two published ones that share a base point (when the parameters allow it), 37 digit proofs instead of 9 (when the wire format has a length prefix there), close balance mismatch, sign-flipped amount; or post-challenge choice (probe -> hook -> adapt -> resubmit, up to three rounds) of the revealed nonce scalar (twice on one token: double spend), the close-tag scalar, T of the state / close / lock proof, C of the state / close proof, T of a digit proof (overspend), the response of ONE digit proof at each digit position of either balance (a negative balance whose other digit proofs are all valid). Distinct = distinct (variant, balances, amount, history, seed); non-trivial = an attack was run".into()
+        "one case = one Byzantine customer session against the real merchant: raw establishment (so the actor knows every scalar), 0-2 honest raw payments to vary the history, one more honest raw payment as accept-the-truth control (closing signature must be on old-balance -/+ amount, a foreign revocation pair must be refused and the right one must complete it), then one variant of the false pay statement: wrong nonce, a token for another nonce derived algebraically from the pay token and the closing signature of the same state (valid iff the merchant re-used its signing exponent), another channel id in only one of the two new messages, wrong amount on either balance, negative / above-range balance, foreign channel id, close tag replaced, old-lock commitment to another lock (linked and unlinked), new lock mismatch, token of another key / tampered / on a different state, digit signature for another digit, digits permuted, all-maximal digits, a digit signature fabricated from two published ones that share a base point (when the parameters allow it), 37 digit proofs instead of 9 (when the wire format has a length prefix there), close balance mismatch, sign-flipped amount; or post-challenge choice (probe -> hook -> adapt -> resubmit, up to three rounds) of the revealed nonce scalar (twice on one token: double spend), the close-tag scalar, T of the state / close / lock proof, C of the state / close proof, T of a digit proof (overspend), C and T of one sub-proof negated, the response of ONE digit proof at each digit position of either balance (a negative balance whose other digit proofs are all valid). Distinct = distinct (variant, balances, amount, history, seed); non-trivial = an attack was run".into()
     }
     fn assumptions(&self) -> Vec<String> {
         vec![
